@@ -41,8 +41,11 @@ func (r *Router) proxy(w http.ResponseWriter, req *http.Request) {
 	} else {
 		upstreamReq.Header.Set("X-Forwarded-For", req.RemoteAddr)
 	}
-	// call the upstream service
-	resp, err := r.proxyClient.Do(upstreamReq)
+	// call the upstream service; a redirect is an answer to relay to the client, not
+	// something to follow on its behalf
+	client := *r.proxyClient
+	client.CheckRedirect = func(*http.Request, []*http.Request) error { return http.ErrUseLastResponse }
+	resp, err := client.Do(upstreamReq)
 	if err != nil {
 		r.handlerReturnWithError(w, ErrUpstreamUnavailable, err)
 		return
